@@ -105,8 +105,7 @@ def _generate_index_expressions(
 
     if old_shape == new_shape:
         # Avoid generating modulo expressions for direct pass-through
-        assert len(old_shape) == 1
-        return (index_vars[0],)
+        return tuple(index_vars)
 
     old_size_tills = [old_shape[-1] if order == "C" else old_shape[0]]
 
